@@ -36,6 +36,17 @@ let () =
                (String.concat "" (List.map (fun w -> " " ^ string_of_cz w) ws))
            | None -> Printf.printf "%s 0\n" cas)
         with Failure m -> Printf.printf "%s MODEL-UNSUPPORTED %s\n" cas m)
+      | "X" :: cas :: rowid :: _mn :: _nops :: ops ->
+        (* one specific row of rows_excluded (re-validation of recorded DB defects) *)
+        (try
+          let ops = List.concat (List.map parse_op ops) in
+          let rid = Z.of_string rowid in
+          (match List.find_opt (fun r -> Z.equal (z_of_cz r.A64spec.r_id) rid) A64spec.rows_excluded with
+           | Some r -> (match A64spec.spec_row r ops with
+                        | Some w -> Printf.printf "%s 1 %s 1 %s\n" cas rowid (string_of_cz w)
+                        | None -> Printf.printf "%s 0\n" cas)
+           | None -> Printf.printf "%s MODEL-UNSUPPORTED no such excluded row\n" cas)
+        with Failure m -> Printf.printf "%s MODEL-UNSUPPORTED %s\n" cas m)
       | [] -> ()
       | _ -> print_endline "BAD"
     done
